@@ -292,7 +292,15 @@ package capnp
 //@   props C02
 //@   requires m != nil
 //@   modifies Message.rlimit Message.rlimitInit
+//@   -- Budget accounting under concurrency: m.rlimit is a shared location; every atomic
+//@   -- read-modify-write of it must, judged on the value it actually replaces (old64), either
+//@   -- subtract exactly sz when that value covers sz, or zero the budget when it does not.
+//@   -- A successful answer must be backed by such a subtraction.  (Check-then-act variants fail:
+//@   -- the value at the write is no longer the value that was checked.)
+//@   atomic-step charge: (old64 >= uint64(sz) && new64 == old64-uint64(sz)) || (old64 < uint64(sz) && new64 == 0)
+//@   ensures charged: implies(ok, atomicDrop() == uint64(sz))
 //@   loop 0 "for"
+//@     invariant atomicDrop() == 0
 
 //@ func Segment.readPtr -> ptr, err
 //@   props C01 C02 C03
@@ -302,6 +310,13 @@ package capnp
 //@   ensures implies(err == nil, wfPtr(ptr))
 //@   ensures implies(ptr.seg != nil, ptr.seg.msg == s.msg)
 //@   ensures [C02] depth: implies(ptr.seg != nil && ptr.flags.ptrType() != interfacePtrType, depthLimit >= 1 && ptr.depthLimit == depthLimit-1)
+//@   -- every struct or list handed out was charged to the traversal budget with its read size
+//@   ensures [C02] chargedStruct: implies(ptr.seg != nil && ptr.flags.ptrType() == structPtrType, M(atomicDrop()) == szBytes(ptr.size))
+//@   ensures [C02] chargedList: implies(ptr.seg != nil && ptr.flags.ptrType() == listPtrType && szBytes(ptr.size) != 0,
+//@           M(atomicDrop()) == M(int32(ptr.lenOrCap))*szBytes(ptr.size))
+//@   -- a zero-sized list element counts as one word
+//@   ensures [C02] chargedZeroSized: implies(ptr.seg != nil && ptr.flags.ptrType() == listPtrType && szBytes(ptr.size) == 0 && 8*M(int32(ptr.lenOrCap)) <= mMaxSeg(),
+//@           M(atomicDrop()) == 8*M(int32(ptr.lenOrCap)))
 
 // ---------------------------------------------------------------- Arena (assumed interface contracts)
 
